@@ -109,6 +109,14 @@ func superviseChunk(fam, in string, lo, hi int, vecs []map[string]interface{}) [
 		}
 		werr := cmd.Wait()
 		_ = werr
+		if strings.Contains(stderr.String(), "WARNING: DATA RACE") {
+			if lf := os.Getenv("VERIF_RACE_LOG"); lf != "" {
+				if f, e := os.OpenFile(lf, os.O_APPEND|os.O_CREATE|os.O_WRONLY, 0644); e == nil {
+					f.WriteString(stderr.String())
+					f.Close()
+				}
+			}
+		}
 		if next < hi {
 			// the worker died while vector `next` was in flight.  It may have been killed by a
 			// goroutine leaked by an earlier vector, so the culprit is re-run alone first.
